@@ -1,18 +1,18 @@
-\* thorough: peers, the ticket-bearing command, wait + exec; exhaustive
+\* a design in which wait_for_peer_message always waits the library's 10 s (seeded change C12-c3): expected to violate TimeoutIsTimeout
 SPECIFICATION Spec
 CONSTANTS
-  Callers = {1, 2}
-  Specs <- SpecsP
-  Msgs <- MsgsP
-  Apis = {"wait", "exec"}
-  Timeouts = {"short"}
-  MaxElapse = 0
-  MaxFeeds = 2
-  MaxBatch = 2
-  MaxCancel = 1
-  MaxDue = 1
+  Callers = {1}
+  Specs <- SpecsT
+  Msgs <- MsgsT
+  Apis = {"wait"}
+  Timeouts = {"long"}
+  MaxElapse = 1
+  MaxFeeds = 1
+  MaxBatch = 1
+  MaxCancel = 0
+  MaxDue = 2
   MaxSlow = 0
-  MaxSendFail = 1
+  MaxSendFail = 0
   SendHops = 4
   SkipDoneFutures = TRUE
   GuardSetException = TRUE
@@ -20,7 +20,7 @@ CONSTANTS
   TicketBeforeRegister = TRUE
   LiveListAtCompletion = TRUE
   ReleaseWhenSendCancelled = TRUE
-  TimeoutForwarded = TRUE
+  TimeoutForwarded = FALSE
   RegisterAfterSend = TRUE
 INVARIANT TypeOK
 INVARIANT OnlyMatching
